@@ -103,6 +103,16 @@ def materialise(case):
     if rdup.random() < 0.12:
         # a feature without any location, somewhere in the table (after a located one, so that a stale location would show)
         feats.insert(rdup.randint(0, len(feats)), {"type": "unlocated", "parts": None, "quals": {"uid": ["noloc"], "note": ["nowhere"]}})
+    if rdup.random() < 0.15:
+        # a feature (or one exon of a join) located on another record: its coordinates are that record's, at any distance
+        a = rdup.randint(0, 3 * n + 5)
+        remote = [a, a + rdup.randint(1, 2 * n + 3), rdup.choice([1, -1, None]), "J%05d.1" % rdup.randint(0, 99999), rdup.choice([None, None, "GenBank"])]
+        parts = [remote]
+        if rdup.random() < 0.5 and n >= 2:
+            x = rdup.randrange(n - 1)
+            local = [x, rdup.randint(x + 1, n), remote[2]]
+            parts = [local, remote] if rdup.random() < 0.5 else [remote, local]
+        feats.insert(rdup.randint(0, len(feats)), {"type": "misc_feature", "parts": parts, "quals": {"uid": ["remote"], "note": ["elsewhere"]}})
     letters = {}
     if rng.random() < 0.7:
         letters["q"] = list(range(100, 100 + n))
